@@ -165,11 +165,13 @@ def gen_bin(args):
     for (phi2, x, e2, explicit) in args:
         ph = np.array(phi2, float) / 2.0
         xa = np.array(x, float)
+        # (equal weights must not change a mean: every third instance is given a constant weight vector)
+        wkw = {'weights': np.full(len(xa), 3.0)} if (len(recs) % 3 == 2) else {}
         if explicit:
-            o = core.guarded(emd.cycles.bin_by_phase, ph, xa[:, None], bin_edges=np.array(e2, float) / 2.0)
+            o = core.guarded(emd.cycles.bin_by_phase, ph, xa[:, None], bin_edges=np.array(e2, float) / 2.0, **wkw)
         else:
             nb = len(e2) - 1
-            o = core.guarded(emd.cycles.bin_by_phase, ph * (2 * np.pi / 24), xa[:, None], nbins=nb)
+            o = core.guarded(emd.cycles.bin_by_phase, ph * (2 * np.pi / 24), xa[:, None], nbins=nb, **wkw)
         if isinstance(o, str):
             recs.append({'kind': 'bin', 'phi2': list(phi2), 'x': list(x), 'e2': list(e2), 'out60': [-99], 'err': o})
             continue
